@@ -2228,10 +2228,40 @@ func (b *Body) operationOrderObligation(l *Ledger, ai *applyInfo) {
 			}
 		}
 	}
+	// the same pre-pass moved into a helper: a library function that is handed the patch outside
+	// the dispatch loop and whose error ends the call decides before operation 1 has been
+	// applied what a later operation makes of the document as it was
+	dloop := naturalLoop(dispatch)
+	allInstrs(fn, func(i ssa.Instruction) {
+		call, ok := i.(*ssa.Call)
+		if !ok || dloop[call.Block()] || bad != "" {
+			return
+		}
+		g := call.Call.StaticCallee()
+		if g == nil || g.Pkg != b.Lib || len(errResultOf(call)) == 0 {
+			return
+		}
+		takesPatch := false
+		for _, a := range call.Call.Args {
+			if isPatch(unwrapConv(a)) {
+				takesPatch = true
+			}
+		}
+		if !takesPatch {
+			return
+		}
+		for _, e := range errResultOf(call) {
+			for _, t := range nilTests(fn, e) {
+				if b.rejects(t.Blk.Succs[t.NonNilSucc]) {
+					bad = "the error of " + fname(g) + ", which is handed the whole patch at " + b.posOf(call) + " outside the dispatch loop, ends the call: operations are judged before the ones in front of them have been applied"
+				}
+			}
+		}
+	})
 	if bad != "" {
 		l.add("R-DISPATCH", b.Name, key, b.rel(fn.Pos()), Violated, bad, true)
 	} else {
-		l.add("R-DISPATCH", b.Name, key, b.rel(fn.Pos()), Discharged, fmt.Sprintf("the dispatch loop plus %d other loop(s) over the patch, none with an early exit into an error return", n), true)
+		l.add("R-DISPATCH", b.Name, key, b.rel(fn.Pos()), Discharged, fmt.Sprintf("the dispatch loop plus %d other loop(s) over the patch, none with an early exit into an error return; no helper that is handed the patch can end the call", n), true)
 	}
 }
 
